@@ -12,6 +12,7 @@ CONSTANTS
   ScsSids = {0}
   ReaderScsAnySid = TRUE
   LazyFlushTypes = {}
+  NoSharedState = TRUE
 INVARIANTS NoDesync HsExact Emit
 CONSTRAINTS Canonical ReadsLast
 CHECK_DEADLOCK FALSE
